@@ -304,5 +304,15 @@ impl Scenario for Legacy {
             }
         }
     }
-    fn state(&self, _c: &Chain, _o: &(), _g: &(), _cx: &mut Cx) {}
+    fn state(&self, c: &Chain, _o: &(), _g: &(), cx: &mut Cx) {
+        // however it came about: the hub is never live while legacy wait-list entries remain
+        let p: basset::hub::Parameters = c.query(HUB, &basset::hub::QueryMsg::Parameters {}).expect("params");
+        let left = old_entries(c);
+        if left > 0 {
+            cx.trigger("c11_legacy_states_with_entries");
+            if !p.paused.unwrap_or(false) {
+                cx.viol("C11.legacy", "hub is not paused although legacy wait-list entries remain", format!("{} entries left", left));
+            }
+        }
+    }
 }
